@@ -95,6 +95,37 @@ CHECKS = {
         "alternative plane must be a conformal chart (the family is closed only under similarities).",
    technique="Lean 4 proof (conjugation algebra of affine maps) + differential correspondence on real groups",
    ref="5/C05"),
+ 'C07': dict(
+   text="Theorems (for EVERY single-shot fitter, statistic, residual norm and scalar type, by induction on the number of "
+        "passes): after each effective pass the retained set is exactly {base AND rnorm(current fit) < nsigma*stat(current "
+        "fit)} with base = wmask or the previous mask under clip_accum; a pass stops exactly when fewer than minobj would "
+        "remain or the set would not change; the returned fit is the plain fit of the returned fitmask; monotone under "
+        "clip_accum; fitmask subset of wmask; eff_nclip <= nclip; run(n+1) = step(run n) with stopped states and raised "
+        "exceptions as fixpoints, so the answers for nclip = 0,1,2,... are one history; residuals and statistics refer "
+        "to the fitmask points; the root-free (squared) test used for exact rationals is equivalent to the code's test. "
+        "A proved example shows the pre-fix update rule re-admitting a clipped outlier untested. Correspondence: the "
+        "whole nclip = 0..8 history of the real iter_linear_fit against the model (all fitgeom, sigma, rmse/mae/std, "
+        "clip_accum, weight modes; exact-tie corpus on power-of-two lattices). Oracle: the property statement "
+        "re-implemented on top of the implementation's own single-shot fitters.",
+   note="Rounding is outside the model (long double in the code, double in the driver): a tested residual within 1e-9 "
+        "relative of the cutoff is a counted near-tie; fits through exactly minobj points and two-point rscale ties are "
+        "skipped and counted.",
+   technique="Lean 4 proof (invariants by induction over clipping passes, parametric in the fitter; simulation lemma) + differential correspondence of whole histories",
+   ref="5/C07"),
+ 'C09': dict(
+   text="Theorems: two inputs that agree on the positively weighted pairs (coordinates of the others arbitrary) give the "
+        "identical full result of the model of iter_linear_fit for every nclip, fitter, metric and scalar type, and "
+        "fitmask is False on the others; with both weight vectors the pair weight is harmonic (1/w = 1/a + 1/b, 0 unless "
+        "both positive) in all three fitters and equals the call with the explicit harmonic vector; in the model of "
+        "create_group_catalog / fit2ref the weight at group index offset_i + j is image i's j-th weight and pair k "
+        "receives wref[ref_idx k] and wim[input_idx k] with xy = reference, uv = image. Correspondence: iterfit and "
+        "pairargs ops against the real code. Oracle: corrupting zero-/negative-weight sources with 1e12 coordinates, "
+        "explicit harmonic weights, groups of 1..3 real images with distinctive weight columns matched in shuffled order "
+        "against a direct iter_linear_fit call.",
+   note="astropy Table concatenation and numpy fancy indexing are exercised by the correspondence, not modelled beyond "
+        "list concatenation and indexing.",
+   technique="Lean 4 proof (frame argument on the masked data; list indexing lemmas) + metamorphic oracle on the implementation",
+   ref="5/C09"),
  'C17': dict(
    text="Theorems for every order n over any linearly ordered field: whatever the model of linalg.inv returns is the "
         "two-sided inverse (and therefore the unique one); a singular matrix can only produce the singular error; "
